@@ -253,12 +253,14 @@ func runC15(c *Ctx) {
 	saved := untrustedStructPkgs
 	untrustedStructPkgs = nil
 	e := newNilEngine(c)
+	e.nodeCollections = true
 	for _, d := range c.reachDecls(R, extractionEntries...) {
 		e.analyse(d)
 	}
 	e.emit(R)
 	untrustedStructPkgs = saved
 	inconsistentKeys(c, extractionEntries)
+	resliceReuseRule(c, c.reachDecls("work-list-not-aliased", extractionEntries...))
 }
 
 // traversalGuards: C15-D3/D4.
